@@ -447,7 +447,7 @@ fn multi_file_family(rep: &mut Report) {
         rep.machinery(format!("hooks-on CLI binary missing at {}", cli::BIN));
         return;
     }
-    const MENU: [&str; 7] = ["string", "unit", "u32", "option", "generic-param", "mapped-DateTime", "hashmap"];
+    const MENU: [&str; 8] = ["string", "unit", "u32", "option", "generic-param", "mapped-DateTime", "hashmap", "mapped-bytes"];
     const POS: [&str; 3] = ["struct-field", "variant-payload", "alias"];
     const CRATES: [&str; 3] = ["c1_alpha", "c2_beta", "c3_gamma"];
     #[derive(Clone)]
